@@ -14,7 +14,7 @@ RULE = ("1: util::fill_buffer against the model for every composition of inputs 
         "configurations (no encryption / SEIPD v1 / SEIPD v2) x (compression) x (signature, text mode) x (armor) and payload sizes on the partial-chunk, AEAD-chunk and buffer edges: source "
         "schedules (1 octet at a time, straddling, random, every composition for tiny inputs) x sink schedules give identical octets; the reader under source schedules x {read_to_end, read with "
         "request sizes, BufRead} gives the identical payload and signature verdict; a fault injected at every call of the builder's source, the builder's sink and the reader's source is "
-        "reported as an error (or was never reached and the result is complete and right) - never a clean shorter result. 2e: utf8-mode literals built from a reader over 18 short texts (legal, with bare LFs, multi-octet characters, ill-formed UTF-8) under every composition: accepted / refused and written as one read is, and the verdict is the one of the model readers Io/Utf8Check.v and Io/CrLfCheck.v run over the same cutting. 2b+: a consumer that reads into an empty buffer before every read (Ok(0), nothing changes; fix 63f292e). 3: the CFB and AEAD stream encryptors driven by read() with any "
+        "reported as an error (or was never reached and the result is complete and right) - never a clean shorter result. 2e: utf8-mode literals built from a reader over 18 short texts (legal, with bare LFs, multi-octet characters, ill-formed UTF-8) under every composition: accepted / refused and written as one read is, and the verdict is the one of the model readers Io/Utf8Check.v and Io/CrLfCheck.v run over the same cutting. 2b+: a consumer that reads into an empty buffer before every read (Ok(0), nothing changes; fix 63f292e), compared with the model's message reader Msg/ReadEnd.v over the same requests. 3: the CFB and AEAD stream encryptors driven by read() with any "
         "request sizes equal read_to_end. 4: armor::write with a sink fault at every call including the final flush. non-trivial = cases whose verdict holds")
 TRUSTED = [
     "model file: coq/theories/Io/Fill.v (fill loop, consumer, block pump); theorems coq/theories/Props/C09.v; the chunking theorems of the concrete stateful transformers are C14 (normalising hasher / reader for every chunking and window size), C10 (armor reader) and C03 (streaming decryptor refines one-shot)",
